@@ -5,6 +5,9 @@ use super::*;
 use std::io::{Read, Seek, SeekFrom};
 
 /// In-memory reader that counts how often it is asked for data after the end of the file.
+/// highest file position any read reached (for 'rejected on the header alone' claims)
+pub(crate) static mut MAX_POS: usize = 0;
+
 pub(crate) struct CountingReader {
     pub data: [u8; 24],
     pub len: usize,
@@ -27,6 +30,11 @@ impl Read for CountingReader {
             i += 1;
         }
         self.pos += n;
+        unsafe {
+            if self.pos > MAX_POS {
+                MAX_POS = self.pos;
+            }
+        }
         Ok(n)
     }
 }
@@ -55,7 +63,7 @@ fn no_format(_args: core::fmt::Arguments<'_>) -> String {
 // @timeout 1500
 // @fn Vtx::load (identifier, stereo byte, header fields, strings-block scan, strings re-read)
 // @sym every byte of a VTX file of 16, 18 or 19 bytes (header + 0, 2 or 3 bytes of strings block; length literal per case)
-// @assert for any bytes the loader returns (no panic, no arithmetic overflow, no out-of-bounds) and never keeps polling the reader after the end of the file (which would be an endless loop on a truncated file); with at most 5 strings bytes the LH5 decoder is not reached, so the result must be an error
+// @assert for any bytes the loader returns (no panic, no arithmetic overflow, no out-of-bounds) and never keeps polling the reader after the end of the file (which would be an endless loop on a truncated file); a header with player frequency 0 is rejected before the strings block is read; with at most 5 strings bytes the LH5 decoder is not reached, so the result must be an error
 // @bound files of 16/18/19 bytes (unwind 26); with at most 3 strings bytes five terminators cannot be found, so the LH5 decoder is never reached; longer strings blocks and the LH5 body are outside
 // @stub alloc::fmt::format -> empty string (error message formatting is not the subject)
 // @outside delharc LH5 decoding; allocation size of the frame buffer (read off the code: sized by a 32-bit header field, see DESIGN.md)
@@ -75,12 +83,20 @@ fn c15_vtx_header_and_strings_total() {
 
 fn vtx_truncated_case(len: usize) {
     let data: [u8; 24] = kani::any();
+    unsafe {
+        MAX_POS = 0;
+    }
     let r = Vtx::load(CountingReader { data, len, pos: 0, eof_reads: 0 });
     let ok = r.is_ok();
     core::mem::forget(r);
     kani::assert(!ok, "c15.vtx.truncated_file_is_rejected");
-    kani::cover!(data[0] == b'a' && data[1] == b'y' && data[2] == 1 && len == 19, "valid header, strings block cut short");
-    kani::cover!(data[0] == b'y' && data[1] == b'm' && data[2] == 6, "YM identifier, CBA stereo");
+    // a player frequency of 0 (offset 9) can never be played: the file is rejected on its header,
+    // before the strings block is even looked at (this is what lets the player harness assume pf >= 1)
+    if data[9] == 0 {
+        kani::assert(unsafe { MAX_POS } <= 16, "c15.vtx.zero_player_frequency_rejected_on_header");
+    }
+    kani::cover!(data[0] == b'a' && data[1] == b'y' && data[2] == 1 && len == 19 && data[9] == 50, "valid header, strings block cut short");
+    kani::cover!(data[0] == b'y' && data[1] == b'm' && data[2] == 6 && data[9] == 0, "YM identifier, CBA stereo, player frequency 0");
 }
 
 // @harness
@@ -88,7 +104,8 @@ fn vtx_truncated_case(len: usize) {
 // @tier quick
 // @timeout 900
 // @fn Player::new; Player::play; Vtx::frame_registers; Vtx::frames_count
-// @sym every header field a file can carry (player frequency 0..255, chip frequency, stereo mode), frame data length from {0, 13, 14, 29} bytes (literals; also lengths that are not a multiple of 14), sample rate 0..400, request length <= 4
+// @assume player frequency >= 1: a file with 0 is rejected by Vtx::load (asserted in c15_vtx_header_and_strings_total)
+// @sym every header field a file can carry (player frequency 1..255, chip frequency, stereo mode), frame data length from {0, 13, 14, 29} bytes (literals; also lengths that are not a multiple of 14), sample rate 0..400, request length <= 4
 // @assert constructing a player for any loadable track and asking it for samples never panics (no division by zero, no out-of-bounds frame access) and returns at most the requested number of samples
 // @bound <= 2 frames, <= 4 samples requested
 #[kani::proof]
@@ -124,12 +141,14 @@ fn player_total_case(n: usize) {
     kani::assert(vtx.frames_count() == n / 14, "c15.vtx.frame_count");
     kani::assert(vtx.frame_registers(2).is_none(), "c15.vtx.frame_index_checked");
     let pf = vtx.player_frequency;
+    // Vtx::load rejects pf == 0 (c15_vtx_header_and_strings_total)
+    kani::assume(pf != 0);
     let rate: usize = kani::any();
     kani::assume(rate <= 400);
     let mut p = player::Player::<player::verif_hooks::RecAy>::new(vtx, rate, kani::any());
     let mut buf = [0f64; 4];
     let got = p.play(&mut buf);
     kani::assert(got <= 4, "c15.vtx.play_bounded_by_request");
-    kani::cover!(pf == 0, "player frequency 0 in the file");
+    kani::cover!(pf == 1 && rate == 3, "lowest player frequency");
     kani::cover!(rate < pf as usize && got == 4 && n == 29, "more frames per second than samples");
 }
